@@ -78,6 +78,17 @@ def gen_iface_impl(prog, cs, fname, ikey):
     own = cs.funcs.get(fname)
     fc = copy.copy(ic)
     fc.key = fname
+    if own is not None and own.requires:
+        # the implementation's own precondition (its representation invariant, configuration) replaces the
+        # interface's: that the caller's state establishes it is assumption A4 (listed in the evidence)
+        fc.requires = own.requires
+        fc.recv_name = own.recv_name
+        fc.param_names = ic.param_names
+        fc.alias_recv = ic.recv_name
+        note = 'A4: when called through %s.%s, %s is assumed to be in the state its own contract requires (%s)' % (
+            ikey[0].rsplit('/', 1)[-1], ikey[1], fname.replace(prog.module + '/', ''), '; '.join(c.text for c in own.requires if c.text not in [x.text for x in ic.requires]))
+        if note not in cs.assumptions:
+            cs.assumptions.append(note)
     fc.loops = own.loops if own is not None else {}
     fc.uses = own.uses if own is not None else []
     fc.decreases = own.decreases if own is not None else None
